@@ -2,6 +2,8 @@ import CCVerif.Model.Translate
 import CCVerif.Model.TranslateSpec
 import CCVerif.Lemmas.Translate
 import CCVerif.Lemmas.Rename
+import CCVerif.Lemmas.RelexRun
+import CCVerif.Lemmas.WordSpec
 import CCVerif.Properties.C17
 /-!
 # C08 — renaming rewrites all and only the mentions of a name and preserves meaning
@@ -22,8 +24,12 @@ Text level (all texts, all maps, all filters — no size bound):
   match of the regenerated rule table): `X1` inside `X11` is not a token, hence untouched;
   `identifier_not_inside` — nor preceded by one, a digit or the letter `B` excepted (`xX1`, `X1X1`).
 * `locals_untouched`, `other_tokens_untouched`, `unmapped_untouched`, `swap_applies_once`.
-* `relex_stable_statement` — stated, checked on every case of the correspondence run by the model
-  driver (`relex-mismatch`) and on instances here; not proved in general.
+* `relex_stable` — for filters that accept identifier tokens only (both filters of the code) and
+  maps whose new names are identifier spellings: lexing the translated text gives the original
+  token list with the replaced tokens re-spelled (no token fuses or splits), all texts;
+  `relex_any_filter_counterexample`: false for a filter that accepts a non-identifier token.
+* `words_agree_tokens`, `translateRS_words` — the word-level specification (`scan`, no lexer model)
+  and the token-level one are the same function, on every text.
 * `translateRaw_text` (from C17's `translateRaw_spec`) and `translateRaw_strict` (byte for byte: only
   the name bytes of a renamed entity reference change) for reference texts.
 
@@ -298,17 +304,83 @@ example : (lexMath txtPrefix).isSome = true ∧ (∀ c ∈ txtPrefix, scalar c) 
 
 /-! ### lexing the result again -/
 
-/-- **relex_stable (statement).** If every replaced token is replaced by a name that lexes, on its
-own, as one identifier token, then lexing the translated text gives the original token list with
-the replaced tokens re-spelled (kind = the identifier class of the new name) — which is what makes
-a second translation, or the analysis that follows a renaming, see the renamed identifiers. -/
+/-- **relex_stable.** For a filter that accepts identifier tokens only (`FilterGlobals`,
+`FilterIdentifiers`, and every sub-filter of them): if every replaced token is replaced by a name
+that lexes, on its own, as one identifier token (`relexExpected … = some exp`), then the translated
+text is well formed, and lexing it gives the original token list with the replaced tokens
+re-spelled — same number of tokens, same order, every unchanged token with its kind and text, every
+replaced token as ONE identifier token whose text is the new name and whose kind is the identifier
+class of the new name. No two tokens fuse and no token splits; so a second translation, or the
+analysis that follows a renaming, sees exactly the renamed identifiers. All texts, all maps, no
+size bound; the table-dependent facts (homogeneous literals, prefix lengths of the indexed and
+numbered keywords, no identifier rule before an indexed-keyword rule, the identifier rules, the
+END rule) are re-checked by `decide` against the regenerated table. -/
+theorem relex_stable (f : Tok → Bool) (hf : ∀ k, f k = true → filterIdentifiers k = true) (tr : Translator)
+    (cps : List Nat) (hv : ∀ c ∈ cps, scalar c) (toks : List RawTok) (hl : lexMath cps = some toks)
+    (exp : List (Tok × Bytes)) (he : relexExpected f tr toks = some exp) :
+    ∃ cps', decode (weaveToks f tr cps 0 toks) = some cps' ∧
+      (lexMath cps').map (·.map fun t => (t.id, encode t.text)) = some exp :=
+  ⟨_, relex_lexMath f hf tr cps hv toks hl exp he⟩
+
+/-- `relex_stable` in the shape of the former statement (the decoded result given) -/
+theorem relex_stable_decoded (f : Tok → Bool) (hf : ∀ k, f k = true → filterIdentifiers k = true) (tr : Translator)
+    (cps : List Nat) (hv : ∀ c ∈ cps, scalar c) (toks : List RawTok) (hl : lexMath cps = some toks)
+    (exp : List (Tok × Bytes)) (he : relexExpected f tr toks = some exp)
+    (cps' : List Nat) (hd : decode (weaveToks f tr cps 0 toks) = some cps') :
+    (lexMath cps').map (·.map fun t => (t.id, encode t.text)) = some exp := by
+  obtain ⟨h1, h2⟩ := relex_lexMath f hf tr cps hv toks hl exp he
+  rw [h1] at hd
+  cases hd
+  exact h2
+
+/-- the two filters of `TFFactory` accept identifier tokens only -/
+theorem filters_identifier_only :
+    (∀ k, filterGlobals k = true → filterIdentifiers k = true) ∧ (∀ k, filterIdentifiers k = true → filterIdentifiers k = true) := by
+  refine ⟨?_, fun _ h => h⟩
+  intro k h
+  unfold filterGlobals at h
+  unfold filterIdentifiers
+  rw [h]; rfl
+
+/-- `relex_stable` for `SubstituteGlobals` / `RSConcept::Translate` (`FilterGlobals`) -/
+theorem relex_stable_globals (m : Substitutes) (cps : List Nat) (hv : ∀ c ∈ cps, scalar c) (toks : List RawTok)
+    (hl : lexMath cps = some toks) (exp : List (Tok × Bytes))
+    (he : relexExpected filterGlobals (createTranslator m) toks = some exp) :
+    ∃ cps', decode (weaveToks filterGlobals (createTranslator m) cps 0 toks) = some cps' ∧
+      (lexMath cps').map (·.map fun t => (t.id, encode t.text)) = some exp :=
+  relex_stable _ filters_identifier_only.1 _ cps hv toks hl exp he
+
+/-- the hypothesis `relexExpected … = some exp` is met whenever the new names of the map are
+identifier spellings: e.g. global names `X2`, `F7`; non-vacuity of `relex_stable` on a text with a
+prefix pair, a three-byte operator and a change of identifier class -/
+example : (∀ c ∈ txtLocal, scalar c) ∧ (lexMath txtLocal).isSome = true ∧
+    ((lexMath txtLocal).bind (relexExpected filterGlobals (createTranslator [(x1, [70, 55])]))).isSome = true ∧
+    idClass [88, 50] = some .ID_GLOBAL ∧ idClass [70, 55] = some .ID_FUNCTION ∧ idClass [0xCE, 0xBE, 49] = some .ID_LOCAL := by
+  decide +kernel
+
+/-- **the hypothesis on the filter is needed.** The former statement `relex_stable_statement`
+quantified over ALL token filters; for a filter that accepts a token that is not an identifier the
+claim is false in the model: with the filter `{PLUS}` and the map `+ ↦ X1`, the text `a+b`
+(tokens `a`, `+`, `b`) becomes `aX1b`, ONE local name — the three tokens fuse. No such filter exists
+in the code (`TFFactory` builds `FilterGlobals` and `FilterIdentifiers` only); recorded to delimit
+`relex_stable`. -/
 def relex_stable_statement : Prop :=
   ∀ (f : Tok → Bool) (tr : Translator) (cps : List Nat), (∀ c ∈ cps, scalar c) →
     ∀ toks, lexMath cps = some toks → ∀ exp, relexExpected f tr toks = some exp →
       ∀ cps', decode (weaveToks f tr cps 0 toks) = some cps' →
         (lexMath cps').map (·.map fun t => (t.id, encode t.text)) = some exp
 
-/-- instances of `relex_stable_statement`: prefix names, a swap, Greek and longer new names, a
+theorem relex_any_filter_counterexample : ¬ relex_stable_statement := by
+  intro h
+  have := h (fun t => t = .PLUS) (createTranslator [([43], [88, 49])]) [97, 43, 98] (by decide)
+    [⟨.ID_LOCAL, 0, 1, [97]⟩, ⟨.PLUS, 1, 2, [43]⟩, ⟨.ID_LOCAL, 2, 3, [98]⟩] (by decide +kernel)
+    [(.ID_LOCAL, [97]), (.ID_GLOBAL, [88, 49]), (.ID_LOCAL, [98])] (by decide +kernel)
+    [97, 88, 49, 98] (by decide +kernel)
+  revert this
+  decide +kernel
+
+/-- `relex_stable` evaluated on instances (`relexHolds` is what the model driver prints as
+`relex-mismatch` when false): prefix names, a swap, Greek and longer new names, a
 change of identifier class (`X1 ↦ F7`) -/
 theorem relex_stable_instances :
     ∀ p ∈ [(txtPrefix, [(x1, x2)]), (txtPrefix, [(x1, [88, 49, 49]), ([88, 49, 49], x1)]),
@@ -321,6 +393,47 @@ theorem relex_stable_instances :
 `X1 ↦ X1 ∪X2`-style expression substitution splits one token into three -/
 theorem relex_needs_identifier_names :
     relexExpected filterGlobals (createTranslator [(x1, encode [88, 49, 32, U, 88, 50])]) ((lexMath [88, 49]).getD []) = none := by
+  decide +kernel
+
+/-! ### the word-level specification -/
+
+/-- **words_agree_tokens.** The word-level specification of `Model/TranslateSpec.lean` (`scan` /
+`translateWords`: whole-identifier occurrences defined WITHOUT the lexer model and its rule table —
+maximal runs of identifier symbols that do not start with a digit or `B` and are not reserved
+words, global when they start with an upper-case letter) and the token-level one (`weaveToks`,
+`changed` over the MATH token stream) are the same function: for every text, every translator,
+`locals = false` against `FilterGlobals` and `locals = true` against `FilterIdentifiers`, same bytes
+and same count. The table-dependent facts (which literals are reserved words, the prefixes of the
+indexed and numbered keywords, keyword rules before the general identifier rules, the catch-all
+rule last) are re-checked by `decide` against the regenerated table. -/
+theorem words_agree_tokens (locals : Bool) (tr : Translator) (cps : List Nat) (toks : List RawTok)
+    (hl : lexMath cps = some toks) :
+    translateWords locals tr cps =
+      (weaveToks (if locals then filterIdentifiers else filterGlobals) tr cps 0 toks,
+       changed (if locals then filterIdentifiers else filterGlobals) tr toks) :=
+  words_eq_tokens locals tr cps toks hl
+
+/-- **translateRS_words.** `TranslateRS` with one of the two filters of the code computes the
+word-level specification: on every well-formed text the result is the text with exactly the
+whole-identifier occurrences of mapped names replaced (globals only / globals and locals), and the
+count is their number — no lexer model in the specification. -/
+theorem translateRS_words (locals : Bool) (tr : Translator) (cps : List Nat) (hv : ∀ c ∈ cps, scalar c) :
+    translateRS (if locals then filterIdentifiers else filterGlobals) tr (encode cps) =
+      .ok (translateWords locals tr cps).1 (translateWords locals tr cps).2 := by
+  obtain ⟨toks, hl⟩ := lexMath_total cps
+  rw [translateRS_tokens _ tr cps hv toks hl, words_agree_tokens locals tr cps toks hl]
+
+/-- `SubstituteGlobals` computes the word-level specification for globals -/
+theorem substituteGlobals_words (m : Substitutes) (cps : List Nat) (hv : ∀ c ∈ cps, scalar c) :
+    substituteGlobals (encode cps) m =
+      .ok (translateWords false (createTranslator m) cps).1 (translateWords false (createTranslator m) cps).2 :=
+  translateRS_words false (createTranslator m) cps hv
+
+/-- the word-level specification on a text with the named situations: `xX1` and `X1X1` untouched,
+`1X1` and `BX1` renamed, the keyword `Pr1,2` passed verbatim (non-vacuity of `words_agree_tokens`) -/
+theorem words_on_example :
+    translateWords false (createTranslator [(x1, x2)]) [120, 88, 49, 32, 88, 49, 88, 49, 32, 49, 88, 49, 32, 80, 114, 49, 44, 50, 32, 66, 88, 49] =
+      (encode [120, 88, 49, 32, 88, 49, 88, 49, 32, 49, 88, 50, 32, 80, 114, 49, 44, 50, 32, 66, 88, 50], 2) := by
   decide +kernel
 
 /-! ## schema level (fragment model of C07: definitions are unions of global names) -/
